@@ -204,6 +204,15 @@ def join_byte_intervals(
                     if aux_data and bi in aux_data:
                         table[bi] = aux_data[bi]
             if len(table) > 0:
+                # The destination must map to the aux data's own sub-dict as
+                # well, or the relocated items would only be stored in this
+                # temporary dictionary and be lost.
+                dest = intervals[0]
+                if dest not in table and dest.module is not None:
+                    aux_data = table_def.get(dest.module)
+                    if aux_data is not None:
+                        aux_data[dest] = {}
+                        table[dest] = aux_data[dest]
                 tables.append(table)  # type: ignore # per above this is hacky
 
     destination = intervals[0]
